@@ -276,10 +276,14 @@ class extract_visitor(NodeVisitor):
 
     def visit_ClassDef(self, node):
         # type: (ast.ClassDef) -> None
+        for d in node.decorator_list:
+            self.visit(d)
+        for b in node.bases:
+            self.visit(b)
+        for k in getattr(node, 'keywords', []):
+            self.visit(k.value)
+
         cur = self.flow
-        self.visit_in_flow(node.decorator_list, cur)
-        self.visit_in_flow(node.bases, cur)
-        self.visit_in_flow([k.value for k in getattr(node, 'keywords', [])], cur)
         scope = ClassScope(cur.scope, node, top=self.top)
         cur.add_name(scope)  # type: ignore[arg-type]  # TODO
         self.visit_in_flow(node.body, scope.flow)
